@@ -10,23 +10,84 @@
       [bmul_ok] (the 64x64 multiply is round-half-up of the 128-bit product), table entries are floors
       ([bell_tables_ok] on the regenerated tables), [stage2_bound], [accurate_band] (error_is_accurate
       means no rounding boundary within the band), then RN_monotone.
-    Eisel-Lemire (default builds): see the Lemire theorems below when present (proofs/LemireFacts*.v);
-      what is not yet proved of it is attacked on every run by the stage-level search (closest
-      approaches, algebraic ties, all-ones fallback witnesses, degenerate products, every q). *)
+    PROVED for Eisel-Lemire (default builds), integers only, no axioms (proofs/LemireFacts0-5.v):
+      [compute_float_sound_all]: for EVERY w in u64 and EVERY q, both build modes: never a panic, and a
+      definite answer satisfies rne_bits (= is the correctly rounded value of w*10^q) - exact table range
+      0<=q<=55 incl. the round-to-even window, the floor+1 range -27<=q<0 (no-borrow, tie soundness and
+      completeness; "no unrefined false tie" is PROVED by exhibiting modular inverses for the 27 entries,
+      checked on the regenerated table), the floor ranges q>55 / q<-27 with the all-ones fallback,
+      subnormals, zero/infinity shortcuts; [lemire_sound]: the wrapper for truncated significands
+      (definite only if the answers at w and w+1 coincide; then correct on the whole range by monotonicity,
+      see [parse_float_lemire_definite_correct] in props/C01.v).  Outside its hypotheses: truncated with
+      w = 0 or w = u64::MAX (KNOWN_FINDINGS F2a/F2b, API-only).
+    The per-entry table facts are computed on the table dumped from the compiled crate on every run
+    ([lfmt_ok_F32/F64], [bell_ok_F32/F64] are vm_compute over all 651 + 76 entries). *)
 
 From Coq Require Import ZArith QArith List Bool Reals.
 From ML Require Import base.RustSem model.Fmt model.Num model.Number model.Rounding model.Bellerophon model.Lemire spec.Decimal spec.Round spec.RoundFacts spec.RneZ spec.RneBridge
-  gen.Consts gen.Tables gen.BTables proofs.TableFacts proofs.BellFacts0 proofs.BellFacts1 proofs.BellFacts2 proofs.BellFacts3 proofs.BellFacts4 proofs.BellFacts5.
+  gen.Consts gen.Tables gen.BTables proofs.TableFacts proofs.BellFacts0 proofs.BellFacts1 proofs.BellFacts2 proofs.BellFacts3 proofs.BellFacts4 proofs.BellFacts5 proofs.LemireFacts0 proofs.LemireFacts1 proofs.LemireFacts5.
 
 Open Scope Z_scope.
 
+Theorem C11_lfmt_ok_F32 :
+  lfmt_ok F32 = true.
+Proof. exact lfmt_ok_F32. Qed.
+
+Theorem C11_lfmt_ok_F64 :
+  lfmt_ok F64 = true.
+Proof. exact lfmt_ok_F64. Qed.
+
+Theorem C11_compute_float_sound_all :
+  forall (f : format) (b : build) (q w : Z), lfmt_ok f = true -> 0 <= w < 2 ^ 64 -> cf_sound f b q w.
+Proof. exact compute_float_sound_all. Qed.
+
+Theorem C11_compute_float_sound :
+  forall (f : format) (b : build) (q w : Z),
+         lfmt_ok f = true ->
+         0 <= w < 2 ^ 64 ->
+         - 2 ^ 31 <= q < 2 ^ 31 ->
+         exists fp : extfloat,
+           compute_float TABLES f b q w = Ok fp /\
+           (0 <= exp fp ->
+            (0 <= exp fp <= INFINITE_POWER f /\
+             (0 <= mant fp < 2 ^ MANTISSA_SIZE f \/ mant fp = 2 ^ MANTISSA_SIZE f /\ exp fp = 1)) /\
+            rne_bits f (dec_num w q) (dec_den q) (Z.lor (mant fp) (exp fp * 2 ^ MANTISSA_SIZE f))).
+Proof. exact compute_float_sound. Qed.
+
+Theorem C11_lemire_sound :
+  forall (f : format) (b : build) (n : number),
+         lfmt_ok f = true ->
+         0 <= nmant n < 2 ^ 64 ->
+         (many n = true -> 0 < nmant n /\ nmant n + 1 < 2 ^ 64) ->
+         exists fp : extfloat,
+           lemire TABLES f b n = Ok fp /\
+           (0 <= exp fp ->
+            compute_float TABLES f b (nexp n) (nmant n) = Ok fp /\
+            fields_ok f fp /\
+            rne_bits f (dec_num (nmant n) (nexp n)) (dec_den (nexp n)) (pack f fp) /\
+            (many n = true ->
+             compute_float TABLES f b (nexp n) (nmant n + 1) = Ok fp /\
+             rne_bits f (dec_num (nmant n + 1) (nexp n)) (dec_den (nexp n)) (pack f fp))).
+Proof. exact lemire_sound. Qed.
+
+Theorem C11_compute_product_approx_spec :
+  forall (b : build) (q w p : Z),
+         -342 <= q <= 308 ->
+         0 <= w < 2 ^ 64 ->
+         0 < p < 64 ->
+         exists lo hi : Z,
+           compute_product_approx TABLES b q w p = Ok (lo, hi) /\
+           0 <= lo < 2 ^ 64 /\
+           0 <= hi < 2 ^ 64 /\ (refined_pair w q lo hi \/ unrefined_pair w q (64 - p) lo hi).
+Proof. exact compute_product_approx_spec. Qed.
+
 Theorem C11_bell_ok_F32 :
   bell_ok F32 = true.
-Proof. exact bell_ok_F32. Qed.
+Proof. exact BellFacts5.bell_ok_F32. Qed.
 
 Theorem C11_bell_ok_F64 :
   bell_ok F64 = true.
-Proof. exact bell_ok_F64. Qed.
+Proof. exact BellFacts5.bell_ok_F64. Qed.
 
 Theorem C11_bellerophon_sound :
   forall (f : format) (b : build) (w q : Z) (t : bool),
@@ -40,7 +101,7 @@ Theorem C11_bellerophon_sound :
             forall v : Q,
             (if t
              then (inject_Z w * pow10Q q <= v < inject_Z (w + 1) * pow10Q q)%Q
-             else v == inject_Z w * pow10Q q) -> RN f v = pack f fp).
+             else v == inject_Z w * pow10Q q) -> RN f v = BellFacts5.pack f fp).
 Proof. exact bellerophon_sound. Qed.
 
 Theorem C11_bellerophon_sound_strong :
@@ -52,11 +113,11 @@ Theorem C11_bellerophon_sound_strong :
          exists fp : extfloat,
            bellerophon BTABLES f b {| nexp := q; nmant := w; many := t |} = Ok fp /\
            (0 <= exp fp ->
-            extended_to_float f b fp = Ok (pack f fp) /\
+            extended_to_float f b fp = Ok (BellFacts5.pack f fp) /\
             (forall v : Q,
              (if t
               then (inject_Z w * pow10Q q <= v < inject_Z (w + 1) * pow10Q q)%Q
-              else v == inject_Z w * pow10Q q) -> RN f v = pack f fp)).
+              else v == inject_Z w * pow10Q q) -> RN f v = BellFacts5.pack f fp)).
 Proof. exact bellerophon_sound_strong. Qed.
 
 Theorem C11_bmul_ok :
@@ -118,7 +179,7 @@ Theorem C11_small_truncated_corner :
   bellerophon BTABLES F32 checked_build {| nexp := 0; nmant := 1; many := true |} =
          Ok {| mant := 0; exp := 127 |} /\
          (inject_Z 1 * pow10Q 0 <= 3 # 2 < inject_Z (1 + 1) * pow10Q 0)%Q /\
-         RN F32 (3 # 2) <> pack F32 {| mant := 0; exp := 127 |}.
+         RN F32 (3 # 2) <> BellFacts5.pack F32 {| mant := 0; exp := 127 |}.
 Proof. exact small_truncated_corner. Qed.
 
 Theorem C11_bell_F1_declined :
@@ -131,6 +192,12 @@ Theorem C11_bell_F1_declined :
 Proof. exact bell_F1_declined. Qed.
 
 
+Print Assumptions C11_lfmt_ok_F32.
+Print Assumptions C11_lfmt_ok_F64.
+Print Assumptions C11_compute_float_sound_all.
+Print Assumptions C11_compute_float_sound.
+Print Assumptions C11_lemire_sound.
+Print Assumptions C11_compute_product_approx_spec.
 Print Assumptions C11_bell_ok_F32.
 Print Assumptions C11_bell_ok_F64.
 Print Assumptions C11_bellerophon_sound.
